@@ -2,13 +2,14 @@ import TssVerif.Core.Wire
 import TssVerif.Core.Hash
 import TssVerif.Core.Commit
 import TssVerif.Core.OpsCrypto
+import TssVerif.Core.OpsZk
 /-! Dispatch of the line protocol: `op arg…` ↦ canonical result string. Unknown or malformed
 lines give `bad-op` (never a default value). -/
 namespace TssVerif.Ops
 open TssVerif Wire
 
 /-- the model of the tree as it is now -/
-def curParse : ParseCfg := { rejectNegative := true, keepTrailing := true }
+def curParse : ParseCfg := Ops16.curParse
 
 def run (line : String) : String :=
   match line.splitOn " " with
@@ -55,7 +56,7 @@ def run (line : String) : String :=
     match pList pInt xs with
     | some l => (parseSecretsCfg curParse l).render (rListList rInt)
     | none => "bad-op"
-  | op :: args => (OpsCrypto.run op args).getD "bad-op"
+  | op :: args => ((OpsCrypto.run op args).orElse fun _ => OpsZk.run op args).getD "bad-op"
   | _ => "bad-op"
 
 end TssVerif.Ops
